@@ -462,46 +462,60 @@ def rule_entry(ctx):
         elif v[0] == "c" and isinstance(v[1], (bytearray, list, dict, set)):
             out.append((v[1], path))
 
-    def run(cell, domains):
-        runner = LayerRunner(repo, {})
-        it = Interp(repo, cell, domains, hooks=runner.hooks())
-        it.layer_base = runner.base
-        it.max_steps = 500000           # the real token dictionary and encoder are executed
-        layer = runner.make_layer(it, cls)
-        objs = []
-        reachable(layer, set(), objs, "self")
-        writes = []
+    def stanza(it, which):
+        if which == 0:
+            return it.new_node([("c", "message"), ("dict", {"id": ("c", "1"), "to": ("c", "123@s.whatsapp.net")}), C_NONE, ("c", b"payload")], {})
+        return it.new_node([("c", "receipt"), ("dict", {"id": ("c", "77"), "type": ("c", "read"), "to": ("c", "9@g.us")}), C_NONE, C_NONE], {})
 
-        def on_write(kind, target, detail, node):
-            t = target[1]
-            for o, path in objs:
-                if o is t:
-                    writes.append((path, kind, detail, getattr(node, "lineno", None)))
-        node = it.new_node([("c", "message"), ("dict", {"id": ("c", "1"), "to": ("c", "123@s.whatsapp.net")}), C_NONE, ("c", b"payload")], {})
-        it.on_write = on_write
-        raised = None
-        try:
-            it.call_function(send, k, layer, [node], {}, depth=0)
-        except _Raise as r:
-            raised = r.text
-        it.on_write = None
-        downs = [e for e in it.effects if e[0] == "DOWN"]
-        return {"writes": writes, "downs": len(downs), "raised": raised, "objects": len(objs)}, it
+    def make_run(which):
+        def run(cell, domains):
+            runner = LayerRunner(repo, {})
+            it = Interp(repo, cell, domains, hooks=runner.hooks())
+            it.layer_base = runner.base
+            it.max_steps = 500000           # the real token dictionary and encoder are executed
+            layer = runner.make_layer(it, cls)
+            objs = []
+            reachable(layer, set(), objs, "self")
+            writes = []
+
+            def on_write(kind, target, detail, node, value=None):
+                t = target[1]
+                for o, path in objs:
+                    if o is t:
+                        writes.append((path, kind, detail, getattr(node, "lineno", None), repr(value)[:4000]))
+            node = stanza(it, which)
+            it.on_write = on_write
+            raised = None
+            try:
+                it.call_function(send, k, layer, [node], {}, depth=0)
+            except _Raise as r:
+                raised = r.text
+            it.on_write = None
+            downs = [e for e in it.effects if e[0] == "DOWN"]
+            return {"writes": writes, "downs": len(downs), "raised": raised, "objects": len(objs)}, it
+        return run
     try:
-        cells = enumerate_cells(run, {}, max_cells=512)
+        cells = enumerate_cells(make_run(0), {}, max_cells=512)
+        cells_b = enumerate_cells(make_run(1), {}, max_cells=512)
     except (Budget, NeedAtom, DomainGrew) as x:
         ctx.undecided("C11.entry", w, "send", "send could not be executed: %s" % (x,))
         return
-    writes = sorted({wr for _c, r in cells for wr in r["writes"]})
-    reached = [r for _c, r in cells if r["downs"]]
+    # a write is unprotected STATE when what is written depends on the stanza being sent: the same send path is executed
+    # for two different stanzas and the stores are compared.  A store that writes the same value whatever is sent (a lookup
+    # table built on first use) is idempotent: two threads racing on it write the same thing
+    wa = {wr for _c, r in cells for wr in r["writes"]}
+    wb = {wr for _c, r in cells_b for wr in r["writes"]}
+    writes = sorted({wr[:4] for wr in (wa ^ wb)})
+    ctx.units["C11.entry_idempotent_writes"] = len({wr[:4] for wr in (wa & wb)})
+    reached = [r for _c, r in cells if r["downs"]] and [r for _c, r in cells_b if r["downs"]]
     if not reached:
-        ctx.undecided("C11.entry", w, "send", "no executed path hands the stanza down (%s)" % sorted({str(r["raised"])[:50] for _c, r in cells}))
+        ctx.undecided("C11.entry", w, "send", "no executed path hands the stanza down (%s)" % sorted({str(r["raised"])[:50] for _c, r in cells + cells_b}))
         return
     ctx.units["C11.entry_objects_watched"] = max(r["objects"] for _c, r in cells)
     ctx.check("C11.entry", not writes, w, "send writes no per-layer state before the locked hand-over",
               "the send path writes %s (%s at line %s) outside any lock: two threads entering the chain here (nothing above the coder serialises them) overwrite each other's stanza - one is transmitted twice, the other never" % (
                   writes[0][0] if writes else "", "%s %s" % (writes[0][1], writes[0][2]) if writes else "", writes[0][3] if writes else ""),
-              "%d object(s) reachable from the layer watched over %d path class(es): none written" % (ctx.units["C11.entry_objects_watched"], len(cells)))
+              "%d object(s) reachable from the layer watched over %d path class(es), two different stanzas: nothing written that depends on the stanza" % (ctx.units["C11.entry_objects_watched"], len(cells)))
 
 
 def run(ctx):
